@@ -59,7 +59,9 @@ func (sh *sipHash) compute() uint64 {
 	b := uint64(length) << 56
 
 	var index int
-	end := ((sh.length - 1) / 8) * 8
+	// all complete 8-byte blocks are compressed here; at most 7 bytes are left for the
+	// final block, which also carries the length in its top byte
+	end := sh.length - sh.remainder
 	for index = 0; index < end; index += 8 {
 		m := binary.LittleEndian.Uint64(sh.data[index:])
 
